@@ -49,6 +49,13 @@ func (els *EncryptedLeaseSet) Verify() error {
 // present, otherwise constructs a key from sigType + blindedPublicKey.
 func (els *EncryptedLeaseSet) signingPublicKeyForVerification() (types.SigningPublicKey, error) {
 	if els.HasOfflineKeys() && els.offlineSignature != nil {
+		// The transient key may only stand in for the blinded key if the offline
+		// block is itself signed by the blinded key.
+		if ok, err := els.offlineSignature.VerifySignature(els.blindedPublicKey); err != nil {
+			return nil, oops.Errorf("failed to verify offline signature: %w", err)
+		} else if !ok {
+			return nil, oops.Errorf("offline signature is not valid under the blinded signing key")
+		}
 		transientKeyBytes := els.offlineSignature.TransientPublicKey()
 		transientSigType := els.offlineSignature.TransientSigType()
 		spk, err := key_certificate.ConstructSigningPublicKeyByType(
